@@ -239,7 +239,7 @@ EvalProps(d, props, acc, prev, warns) ==
            i == EvalBody(d, p.inp)
            o == EvalBody(d, p.out)
        IN IF i.t # "num" \/ o.t # "num" THEN [ok |-> FALSE, props |-> acc, warns |-> warns]
-          ELSE IF o.v.n = 0 THEN [ok |-> FALSE, props |-> acc, warns |-> warns]     \* a zero output: no ratio
+          ELSE IF o.v.n = 0 \/ i.v.n = 0 THEN [ok |-> FALSE, props |-> acc, warns |-> warns]   \* a zero side: no ratio
           ELSE LET ratio == NDivV(i.v, o.v)
                    uniq == {p.name, p.iname, p.oname}
                    seen == IF Has(prev, ratio.d) THEN prev[ratio.d] ELSE {}
